@@ -25,8 +25,8 @@ use datacake_sqlite::SqliteStorage;
 use vkit::{par, Report, Stats, Tier, J};
 
 const KEYSPACES: [&str; 2] = ["a", "b"];
-const BIG_ID: u64 = (1u64 << 63) + 5; // above i64::MAX: catches sign conversions
-const IDS: [u64; 2] = [1, BIG_ID];
+const BIG_ID: u64 = (1u64 << 63) + 1; // above i64::MAX (sign conversions); sorts BEFORE 2 in little-endian byte order
+const IDS: [u64; 2] = [2, BIG_ID];
 
 fn stamp(i: u8) -> HLCTimestamp {
     // t1 < t2 < t3, distinct in seconds, fractional, counter and node
